@@ -89,7 +89,7 @@ func c10smAttempt(stream string, ms, num, thr, mode int, evs []string) (out stri
 	ranSoFar := func() int { return int(atomic.LoadInt32(&lg.cancels) + atomic.LoadInt32(&lg.cleanups)) }
 	// wait until one more task has run completely
 	waitOne := func() bool {
-		deadline := time.Now().Add(delay + 3*time.Second)
+		deadline := time.Now().Add(delay + time.Second)
 		for time.Now().Before(deadline) {
 			if ranSoFar() > fired && atomic.LoadInt32(&fsl.raDone) >= atomic.LoadInt32(&lg.cleanups) {
 				fired++
@@ -200,7 +200,7 @@ func c10smAttempt(stream string, ms, num, thr, mode int, evs []string) (out stri
 	tick++
 	sm.VerifTick(tick)
 	total := fired + pending
-	deadline := time.Now().Add(delay + 3*time.Second)
+	deadline := time.Now().Add(delay + time.Second)
 	for (ranSoFar() < total || atomic.LoadInt32(&fsl.raDone) < atomic.LoadInt32(&lg.cleanups)) && time.Now().Before(deadline) {
 		time.Sleep(500 * time.Microsecond)
 	}
